@@ -174,6 +174,9 @@ func (s *ledgerSecret) Close() error {
 		s.rec.bytes[i] = 0
 	}
 	s.rec.Closed = true
+	if !s.rec.Random && s.w.InFlight > 1 {
+		s.w.S.Probe("cachedkey.closed_while_other_operation_in_flight")
+	}
 	s.w.S.Logf("secret#%d closed", s.rec.N)
 	return nil
 }
